@@ -33,6 +33,13 @@ def var_of(f, op, depth=0):
         src = _ops.try_chain_source(f, op)
         if src is not None and any(p != "*" and p[0] == "d" for p in projs):
             return ("call", src.res, src.bb)
+        # payload of an Option local built by `Some(x)` on one path
+        nd = [p for p in projs if p != "*"]
+        if len(nd) == 2 and nd[0][0] == "d" and nd[0][1] == "Some" and nd[1][0] == "f":
+            somes = [payload for (b2, i2, kind, payload) in f.defs().get(local, [])
+                     if kind == "rv" and payload[0] == "agg" and payload[1].get("variant") == "Some"]
+            if len(somes) == 1 and somes[0][2]:
+                return var_of(f, somes[0][2][0], depth + 1)
         # field of a tuple produced by *WithOverflow: handled by caller
         base = var_of(f, ["cp", [local, []]], depth + 1)
         first = [p for p in projs if p != "*"]
@@ -145,6 +152,51 @@ def flag_guard_of(f, bb, max_up=64):
             continue
         return (cur, on_true, var_of(f, info["on"]))
     return None
+
+
+def selector_guard_of(f, bb, max_up=64):
+    """Like flag_guard_of, but also sees a flag that was first turned into an
+    Option (`let k = if flag { Some(..) } else { None }; match k { .. }`):
+    returns (flag switch block, polarity of the flag towards bb, term)."""
+    g = flag_guard_of(f, bb, max_up)
+    idom = f.idoms()
+    cur = bb
+    steps = 0
+    while cur in idom and steps < max_up:
+        steps += 1
+        if cur == 0:
+            break
+        cur = idom[cur]
+        if g is not None and cur == g[0]:
+            return g
+        if f.term(cur)["k"] != "switch":
+            continue
+        info = f.switch_info(cur)
+        if not info or info["kind"] != "discr" or not info["enum"].startswith("std::option::Option<"):
+            continue
+        pl = info["place"]
+        if pl[1]:
+            continue
+        some_t = dict(info["cases"]).get("Some", info["otherwise"])
+        none_t = dict(info["cases"]).get("None", info["otherwise"])
+        if some_t == none_t:
+            continue
+        on_some, on_none = f.dominates(some_t, bb), f.dominates(none_t, bb)
+        if on_some == on_none:
+            continue
+        sdefs, ndefs = [], []
+        for (b2, i2, kind, payload) in f.defs().get(pl[0], []):
+            if kind == "rv" and payload[0] == "agg" and payload[1].get("adt") == "std::option::Option":
+                (sdefs if payload[1]["variant"] == "Some" else ndefs).append(b2)
+            else:
+                sdefs = ndefs = None
+                break
+        if not sdefs or not ndefs or len(sdefs) != 1 or len(ndefs) != 1:
+            continue
+        gs, gn = flag_guard_of(f, sdefs[0]), flag_guard_of(f, ndefs[0])
+        if gs and gn and gs[0] == gn[0] and gs[1] != gn[1]:
+            return (gs[0], gs[1] if on_some else gn[1], gs[2])
+    return g
 
 
 def entry_relations(f, bb, max_blocks=24):
